@@ -31,6 +31,9 @@ func main() {
 	jobs := flag.Int("j", 14, "parallel functions")
 	verbose := flag.Bool("v", false, "print every obligation")
 	keep := flag.Bool("keep", false, "keep SMT files")
+	thorough := flag.Bool("thorough", false, "thorough tier: consult all back ends for every obligation")
+	seed := flag.Int("seed", 0, "solver random seed (thorough tier)")
+	debug := flag.String("debug", "", "keep SMT and solver output for failing obligations whose name contains this")
 	flag.Parse()
 
 	t0 := time.Now()
@@ -40,6 +43,12 @@ func main() {
 		os.Exit(2)
 	}
 	eng.timeoutMs = *timeout
+	eng.debug = *debug
+	eng.thorough = *thorough
+	eng.seed = *seed
+	if *debug != "" {
+		*keep = true
+	}
 	if *work == "" {
 		d, _ := os.MkdirTemp("", "govc")
 		*work = d
